@@ -7,7 +7,7 @@ package service
 // height cannot abort. The queue iterations are taken as yielding arbitrary entries (their prefixes are sub-slices of
 // request ids, outside the key model), which is the stronger statement for "never halts".
 //@ func EndBlocker
-//@   property C08, C13
+//@   property C07, C08, C13
 //@   requires height >= 0 && keeper.endBlockInv && keeper.queueVals
 //@   requires k.feeCollectorName != "service_request_account" && k.feeCollectorName != "service_deposit_account"
 //@   invariant #1 inv: keeper.endBlockInv && keeper.queueVals
@@ -16,5 +16,10 @@ package service
 // queue hygiene (C08, C13): every new-batch entry due at this height has been handled and removed - whatever the
 // handler decided (issued, skipped, paused, no exchange rate) - so that no context is left with an entry in the past
 //@   ensures @C08,C13 new_queue_drained: forall i:Bytes :: !has(newBatch, i, height)
+// (the walk over the expiration queue carries the same invariants - handled entries are gone, pending ones untouched,
+// nothing added to this height - as obligations of its loop; a final "expiration queue empty at this height" is not
+// stated because a batch opened later in the block expires at height + timeout, which needs every queued context to
+// exist with a positive timeout, an invariant over both queues that is not carried through the block)
+//@   by IterateExpiredRequestBatch#1:closed: inv:closed, inv:untouched, inv:done, inv:none_added, inv:pos, inv:todo, inv:inv
 //@   nopanic
 //@ end
